@@ -5,62 +5,134 @@ HERE = os.path.dirname(os.path.abspath(__file__))
 props = [json.loads(l) for l in open(os.path.join(HERE, "properties.jsonl"))]
 ids = [p["id"] for p in props]
 
+TB = ("Trusted: Lean 4.33 kernel; axioms propext/Classical.choice/Quot.sound only (audited by #print axioms on every run, no sorry/"
+      "native_decide/own axioms); the Lean specs as the reading of the property; harness/translate.py (tables regenerated from /repo); "
+      "the hand-written models are tied to the code by differential correspondence (sampling, bounded-exhaustive for the constraint "
+      "algebra), not by proof. ")
+
+def P(text, note, design, technique, level="proof"):
+    return dict(level=level, text=text, note=TB + note, design=design, technique=technique)
+
 CLAIMED = {
- "C04": dict(
-   level="proof",
-   text=("Lean 4 theorems over a model of contains_version / VersionRange.__contains__ that mirrors the Python branch for "
-         "branch: for every well-formed version-sorted constraint list of any length over any scheme whose operators are "
-         "lawful, and every version, the model returns exactly the interval-set meaning `denote` and never raises. The model "
-         "is tied to /repo by a bounded-exhaustive correspondence on real versions of all 17 version classes."),
-   note=("Trusted: Lean kernel; axioms propext/Classical.choice/Quot.sound only; the spec `denote`; the correspondence "
-         "(differential testing, exhaustive over comparator patterns up to length 4 quick / 5 thorough); the scheme's "
-         "operators being lawful is property C02's business and is assumed here."),
-   design="§7 C04", technique="Lean 4 proof (induction over the bound list) + model/implementation correspondence"),
- "C07": dict(
-   level="proof",
-   text=("Lean 4 theorems over a model of VersionConstraint.validate / validate_comparators: for EVERY finite list of "
-         "constraints (any order, duplicates, stars) over a scheme with lawful operators, the model returns True exactly "
-         "when the list is well-formed (WF: every version once, star alone, '=' rule, alternation rule read in version order) "
-         "and raises ValueError otherwise; every accepted list can be tested for membership without error (via C04). "
-         "Tied to /repo by a bounded-exhaustive correspondence on real versions of every hashable scheme."),
-   note=("Trusted: Lean kernel; standard axioms; the spec WF; the correspondence (exhaustive over comparator patterns up to "
-         "length 4 quick / 5 thorough, with duplicates and stars); set() membership modelled by == (hash agreement is C12); "
-         "type checks of the arguments are vacuous in the typed model."),
-   design="§7 C07", technique="Lean 4 proof (sorted-permutation uniqueness, rule equivalence) + correspondence"),
- "C09": dict(
-   level="proof",
-   text=("Lean 4 theorems over a model of VersionRange.invert / VersionConstraint.invert: the INVERTED_COMPARATORS tables "
-         "regenerated from /repo on every run are proved (by decide) to map every comparator to its logical complement; for every "
-         "non-empty well-formed version-sorted range without vacuous constraints (any length, any lawful scheme) the inverse is "
-         "well-formed, contains a version exactly when the original does not (on the spec and on the model of the membership test), "
-         "and inverting again returns the original; a single constraint's inverse flips membership; '*' has no inverse."),
-   note=("Trusted: Lean kernel; standard axioms; specs denote/WFSorted/NonVacuous; translator for the two tables; correspondence "
-         "exhaustive over comparator patterns up to length 4 quick / 5 thorough on every scheme. The empty range is excluded "
-         "(a theorem shows its inverse is empty again)."),
-   design="§7 C09", technique="Lean 4 proof (first-cut-above characterisation of interval unions) + decide over regenerated tables + correspondence"),
- "C08": dict(
-   level="proof",
-   text=("Lean 4 theorem simplify_spec over a model of VersionConstraint.simplify (deduplicate + the single-pass stack walk of "
-         "simplify_constraints + sorted(set(..)) with the set's iteration order an arbitrary permutation): for EVERY version-sorted "
-         "list with pairwise distinct versions (any comparator pattern, any length, any lawful scheme) the result is a sub-list of the "
-         "input, has the same redundant-range meaning denoteR for every version, is accepted by validation and is a fixed point; "
-         "exact duplicates disappear; the result is independent of the hash seed (simplify_seed_independent). The unfixed index walk "
-         "violated all clauses (finding F04, repaired by a fix: commit)."),
-   note=("Trusted: Lean kernel; standard axioms; specs denoteR/validate; correspondence exhaustive over comparator patterns up to "
-         "length 4 quick / 5 thorough (+duplicates) on every hashable scheme, with the four clauses evaluated through the Lean spec "
-         "whenever model and code differ."),
-   design="§7 C08", technique="Lean 4 proof (contextual-equivalence invariant of the stack walk) + correspondence"),
- "C14": dict(
-   level="proof",
-   text=("Lean 4 theorems (decide +kernel) over the class table regenerated from /repo on every run (MRO, defining class, origin "
-         "and guard shape of every rich-comparison dunder of every Version subclass): for every ordered pair of unrelated version "
-         "classes, every value, the four ordering operators raise TypeError, == is False and != is True, because both the method "
-         "and the reflected method decline on the operand's class alone; a foreign version in a constraint or range is rejected by "
-         "the isinstance guard. Adding a scheme or an operator re-runs the theorem over the new matrix."),
-   note=("Trusted: Lean kernel; the model of CPython's rich-comparison dispatch (Univers/Py/Dispatch.lean); the translator's guard-shape "
-         "extraction (AST), tied to behaviour by an exhaustive correspondence over the full class-pair matrix x six operators x sampled "
-         "values, and foreign membership tests for every scheme."),
-   design="§7 C14", technique="Lean 4 proof by kernel decision over the regenerated class table + exhaustive class-matrix correspondence"),
+ "C01": P("Per scheme, Lean refinement theorem `vercmp = compare on a lawful sort key` for a model that mirrors the scheme's comparison "
+          "routine branch for branch, plus the dispatch theorem that `<`/`>` as Python dispatches them are the views of that comparison; the "
+          "generic theorems swo_of_ltgt and sort_classes_invariant (sorting any two permutations gives the same sequence of equivalence "
+          "classes, stated on the quotient) then hold for every triple/list, no bound. Sub-domains: alpm per pkgrel kind and conan per "
+          "homogeneous shape (the property's own exclusions); ebuild/alpine and nuget on every constructible value. maven: counterexamples "
+          "kernel-checked, theorem on the documented shape only (known finding K01).",
+          "Reference keys and Python dispatch semantics are modelled. Correspondence: 1.2k (quick) / 6k (thorough) pairs per scheme from grammar, "
+          "respelling and mutation streams + all triples of a pool on the real operators.",
+          "§7 C01", "Lean 4 proof (refinement to a padded-lexicographic sort key, Std.TransCmp) + correspondence"),
+ "C02": P("Per scheme, `Lawful verOps vercmp`: the six operators as Python dispatches them (attrs tuple semantics, total_ordering, hand-written "
+          "dunders) are the six views of one three-way comparison, for every pair of values (semver/openssl: every constructible value); generic "
+          "consequences ops_agree and constraint_meaning; the COMPARATORS table regenerated from /repo is proved to map each comparator to that "
+          "operator. Five schemes violated this on the unchanged tree (deb, ebuild, alpine, legacy openssl, openssl): repaired (F05 F06 F10).",
+          "Correspondence as C01 with all six operators observed; every ordered pair of a pool put to the property's oracle on the real code; "
+          "single-comparator constraints checked through VersionConstraint.__contains__.",
+          "§7 C02", "Lean 4 proof over a model of Python rich-comparison dispatch + correspondence"),
+ "C03": P("Per scheme, the code's comparison routine equals compare on a sort key written from the ecosystem's published procedure (dpkg, "
+          "rpmvercmp, pacman vercmp, Gentoo PMS 3.3, SemVer 2.0 §11 + build tie-break, PEP 440, Maven ComparableVersion, Gem::Version, NuGet, "
+          "Conan on homogeneous items, two-epoch openssl) — unconditional for deb, rpm, alpm, semver family, pypi, gem, openssl; on constructible "
+          "values for nuget; partial with kernel-checked counterexamples for ebuild/alpine (zero-led first component, K03) and maven (K02).",
+          "The fidelity of the reference keys to the ecosystems' tools is trusted (validated by the agents against upstream vectors, dpkg and "
+          "maven-artifact where present). A lawful but different order is reported with no-failing-input-found only if the sign differs nowhere sampled.",
+          "§7 C03", "Lean 4 proof (refinement to the reference sort key) + correspondence"),
+ "C04": P("Lean 4 theorems over a model of contains_version / VersionRange.__contains__ that mirrors the Python branch for branch: for every "
+          "well-formed version-sorted constraint list of any length over any scheme whose operators are lawful, and every version, the model "
+          "returns exactly the interval-set meaning `denote`, never raises, and depends only on the comparisons with the constraint versions; "
+          "range level through the sorting theorems. '!='-only ranges were broken on the unchanged tree (F01, repaired).",
+          "Correspondence bounded-exhaustive over comparator patterns up to length 4 quick / 5 thorough x every probe position on real versions "
+          "of all 17 version classes; lawfulness of the scheme's operators is C02's business and is assumed here.",
+          "§7 C04", "Lean 4 proof (induction over the bound list) + model/implementation correspondence"),
+ "C05": P("Lean theorems over a model of VersionRange.from_string / __str__ / to_dict / VersionConstraint.split: registry_complete and "
+          "registry_sound decided over the regenerated registry and class tables; fromString_toString and toString_fromString_canonical for every "
+          "registered scheme and every constraint list with delimiter-free version texts; version order of the printed constraints through "
+          "sortCons_of_wf. 'alpine' was missing from the registry on the unchanged tree (F14, repaired).",
+          "mkVer (the version class) is a parameter of the text theorems, instantiated by the Layer-A models in the driver. Correspondence: generated, "
+          "decorated and mutated vers strings for all schemes; object round trip for every range class.",
+          "§7 C05", "Lean 4 proof (string split/join lemmas, decide over regenerated tables) + correspondence"),
+ "C06": P("Per ecosystem, Lean exactness theorems: the model of from_native on every rendering of an expression of the fragment yields exactly the "
+          "documented desugaring (npm caret/tilde/x-range/hyphen, gem ~>, PEP 440 clauses, Maven/NuGet brackets, Conan tilde/caret, Debian/RPM "
+          "relations, nginx dash and plus forms, openssl lists), plus soundness against the in-repo matcher for gem and maven. Membership "
+          "equality with the ecosystems' own matchers is additionally checked on the real code with release probes around every bound.",
+          "PARTIAL: the text-to-AST step of the third-party parsers (semantic_version.NpmSpec, packaging SpecifierSet) is modelled and tied by "
+          "correspondence only; the fidelity of third-party matchers to the ecosystems is trusted. Known: maven soft requirement '1.0' gives vers:maven/None (K07).",
+          "§7 C06", "Lean 4 proof on the AST fragment + correspondence + native-matcher oracle on the real code"),
+ "C07": P("Lean 4 theorems over a model of VersionConstraint.validate / validate_comparators: for EVERY finite list of constraints (any order, "
+          "duplicates, stars) over a scheme with lawful operators, the model returns True exactly when the list is well-formed (WF) and raises "
+          "ValueError otherwise; every accepted list can be tested for membership without error (via C04). F02 repaired.",
+          "Correspondence exhaustive over comparator patterns up to length 4 quick / 5 thorough, with duplicates and stars; set() membership modelled by ==.",
+          "§7 C07", "Lean 4 proof (sorted-permutation uniqueness, rule equivalence) + correspondence"),
+ "C08": P("Lean 4 theorem simplify_spec over a model of VersionConstraint.simplify: for EVERY version-sorted list with pairwise distinct versions "
+          "(any comparator pattern, any length, any lawful scheme, any hash seed) the result is a sub-list of the input, has the same redundant-range "
+          "meaning denoteR for every version, is accepted by validation and is a fixed point; exact duplicates disappear. The unfixed index walk "
+          "violated all clauses (F04, repaired).",
+          "Correspondence exhaustive over comparator patterns up to length 4 quick / 5 thorough (+duplicates) on every scheme, the four clauses "
+          "evaluated through the Lean spec whenever model and code differ.",
+          "§7 C08", "Lean 4 proof (contextual-equivalence invariant of the stack walk) + correspondence"),
+ "C09": P("Lean 4 theorems over a model of VersionRange.invert / VersionConstraint.invert: the INVERTED_COMPARATORS tables regenerated from /repo "
+          "are proved to map every comparator to its logical complement; for every non-empty well-formed version-sorted range without vacuous "
+          "constraints the inverse is well-formed, contains a version exactly when the original does not, and inverting again returns the original; "
+          "a single constraint's inverse flips membership; '*' has no inverse.",
+          "Correspondence exhaustive over comparator patterns up to length 4 quick / 5 thorough on every scheme. The empty range is excluded (theorem).",
+          "§7 C09", "Lean 4 proof (first-cut-above characterisation of interval unions) + decide over regenerated tables + correspondence"),
+ "C10": P("A Lean model of VersionRange.normalize / from_versions (sorted(known), membership of each, grouping of maximal runs, one '=' or one "
+          "'>=,<=' pair per run, constructor sort) is tied to the real code on ranks for every scheme, and the property's clauses are evaluated on the "
+          "real result through the Lean spec (validate, denote). The theorems normalize_wf / normalize_members over this model are not proved yet at "
+          "this commit: the claim is a validated model, not a proof.",
+          "No Lean theorem yet for this property (membership theorem C04 and validation theorem C07 are used as oracles).",
+          "§7 C10", "Lean model + spec evaluated through the driver (translation validation); proof pending", level="translation_validation"),
+ "C11": P("Per version class, a Lean model `construct` of normalize + is_valid + build_value with every escaping exception explicit, and `str`; "
+          "theorems: nothing but InvalidVersion escapes (construct_declared), every constructed value is well-formed (construct_wf) and "
+          "construct (str r) = ok r for well-formed r (str_roundtrip) — all schemes; rpm with a recorded exception (K05). Seven defects repaired "
+          "(F15-F18, deb epoch).",
+          "The recognisers for third-party regexes (PEP 440, semver, coerce) are hand translations tied by correspondence. ASCII text only; the "
+          "CPython 4300-digit int() limit is outside the models.",
+          "§7 C11", "Lean 4 proof (parser/printer inverse on well-formed values) + correspondence + oracle on the real code"),
+ "C12": P("Lean theorems: all_hashable and frozen_flags decided over the class table regenerated from /repo; per scheme eq_imp_hash "
+          "(== implies equal hash key) for every value (gentoo/nuget: constructible values), lifted to constraints and ranges. Unhashable classes "
+          "and hash/== disagreements on the unchanged tree were repaired (F03 F07-F11); maven recorded (K04).",
+          "PARTIAL: hash() is modelled by the key it is computed from; mutation through retained aliases cannot be expressed by the value-semantics "
+          "model and is covered by before/after snapshots of every public operation's arguments only.",
+          "§7 C12", "Lean 4 proof (hash key invariance under the scheme's equivalence) + decide over the class table + correspondence"),
+ "C13": P("Lean theorems: canonical_perm (any permutation of a well-formed constraint list builds the same range), text_whitespace / text_case / "
+          "text_bars / text_presentation for the vers parser (every text, resp. every spelling of an expression), and hash_seed_independent "
+          "(the set iteration order inside simplify is an arbitrary permutation parameter: every seed). F13 repaired.",
+          "The configuration quantifier (hash seed) is discharged by the permutation parameter; additionally one workload is run in sub-processes "
+          "under 4 (quick) / 16 (thorough) PYTHONHASHSEED values and compared byte for byte.",
+          "§7 C13", "Lean 4 proof + correspondence + hash-seed sub-processes"),
+ "C14": P("Lean 4 theorems (decide +kernel) over the class table regenerated from /repo: for every ordered pair of unrelated version classes, every "
+          "value, the four ordering operators raise TypeError, == is False and != is True (both the method and the reflected method decline on the "
+          "operand's class alone); a foreign version in a constraint or range is rejected by the isinstance guard.",
+          "The model of CPython's rich-comparison dispatch and the translator's guard-shape extraction are tied by an exhaustive correspondence over "
+          "the full class-pair matrix x six operators x sampled values.",
+          "§7 C14", "Lean 4 proof by kernel decision over the regenerated class table + exhaustive class-matrix correspondence"),
+ "C15": P("Lean theorems over models of the GitHub, Snyk (comma, space, bracket) and GitLab converters, table-driven by the comparator dicts and "
+          "scheme tables regenerated from /repo: github_exact, snyk_exact, gitlab_exact (parse of every rendering of an expression = exactly the "
+          "stated constraints), notations_agree, split_req_order_ok over all comparator dicts (dict order cannot shadow a comparator; F21 F24 repaired).",
+          "Version texts must not begin with a comparator character (the proof forces it; it is the property's domain). Oracle on the real code: one "
+          "logical range rendered in every notation and as vers must give equal ranges.",
+          "§7 C15", "Lean 4 proof (render/parse inverse) + decide over regenerated tables + correspondence"),
+ "C16": P("Every partial Python operation of the modelled parsers is an explicit error constructor, so 'no internal error escapes' is a theorem about "
+          "reachable constructors for EVERY text: construct_declared per version class, fromString_declared, npm_declared, gem_native_declared, "
+          "pypi_native_declared, maven/nuget_native_declared_real, conan_declared_real, deb/rpm/openssl/nginx/gitlab_declared. Termination of the "
+          "models is their acceptance by Lean. Six internal-error escapes on the unchanged tree were repaired (F12 F19 F20 F23 ...); maven "
+          "RecursionError recorded (K06).",
+          "PARTIAL: running time (regex backtracking, big-int arithmetic, recursion limit) is runtime behaviour: measured on inputs of length 2^k with a "
+          "fitted exponent, not proved. gem InvalidRequirementError (an AttributeError subclass) and ConanException count as the library's declared errors.",
+          "§7 C16", "Lean 4 proof (reachable error constructors) + correspondence + fuzzing and timing on the real code"),
+ "C17": P("Lean theorems history_meaning / history_membership / history_text_stable by induction on the list of operations: starting from any "
+          "well-formed range, ANY finite sequence of print+parse, rebuild from shuffled constraints, simplify (any hash seed), validate and invert "
+          "twice never fails, keeps the range well-formed with exactly the same membership for every version, and after a simplify step the "
+          "constraint tuple no longer changes. Composes C04, C07, C08, C09, C13 and denoteR_eq_denote.",
+          "print+parse is the identity on the constraint tuple by C05 (text layer) and is modelled as rebuilding the range. Correspondence: seeded "
+          "random walks on real ranges of every registered scheme with the membership vector compared with the Lean spec after every step.",
+          "§7 C17", "Lean 4 proof (induction over histories) + random-walk correspondence"),
+ "C18": P("Lean theorems: semver_successors (v < next_patch <= next_minor <= next_major for every value incl. pre-releases and build), gem "
+          "v < bump, v <= release, release final; conan v < upper_bound(i) < bump(i); caret/tilde/pessimistic bounds and gem ~> bounds (lower < upper, "
+          "start satisfies both) — over the Layer-A orders. F25 F26 repaired.",
+          "conan bounds need numeric items up to the index. Correspondence on the helpers + the property's oracle on the real code.",
+          "§7 C18", "Lean 4 proof over the scheme models + correspondence"),
 }
 
 NOT_YET = "machinery for this property is not built yet at this commit (planned: Lean 4 proof + correspondence, see DESIGN.md §7)"
